@@ -858,7 +858,13 @@ func (ts tasks) numToDo() (todo, notes int) {
 func (s *Server) CancelRequest(id string) {
 	s.mu.Lock()
 	defer s.mu.Unlock()
-	if s.cancelLocked(id) {
+
+	// Cancel the context but keep the ID reserved: the call is still in flight
+	// until its reply is delivered, and deliver releases the reservation. If
+	// it were released here, a new request could take the ID and would then
+	// be cancelled by the completion of this one.
+	if cancel, ok := s.used[id]; ok {
+		cancel()
 		s.log("Cancelled request %s by client order", id)
 	}
 }
